@@ -512,7 +512,9 @@ def stamp_table(run: Run, model: PyModel, rid: str) -> None:
     fq = model.func(Q)
     D6 = tuple(CharSet(frozenset("0123456789")) for _ in range(6))
     n = 0
-    for stamped_before in (False, True):
+    # "index only": the index holds a stamped copy, the file never received the stamp (the run that stamped it died before the write-back) -- the next run
+    # compiles the unstamped line again
+    for stamped_before in (False, True, "index only"):
         for has_old in (False, True):
             for changed in (False, True):
                 for dated in (False, True, "later"):
@@ -526,9 +528,13 @@ def stamp_table(run: Run, model: PyModel, rid: str) -> None:
 
                     rest = "240101#00 text  with   blanks\n  second line"
                     pre = "240105 " if stamped_before else ""
-                    new_body = pre + (rest.replace("text", "edited") if changed else rest)
+                    pre_file = "240105 " if stamped_before is True else ""
+                    new_body = pre_file + (rest.replace("text", "edited") if changed else rest)
                     old_md = OLD if stamped_before else CREATED
-                    note = N(new_body, FUTURE if dated == "later" else TODAY if dated else old_md, "240101#00")
+                    file_md = OLD if stamped_before is True else CREATED  # what compiling the file's line yields
+                    if stamped_before == "index only" and dated:
+                        continue  # a line without a stamp cannot be dated today / later
+                    note = N(new_body, FUTURE if dated == "later" else TODAY if dated else file_md, "240101#00")
                     old = N(pre + rest, old_md, "240101#00" if has_old else "240101#99")
                     ctrl, ctrl_old = N("240101#01 control", CREATED, "240101#01"), N("240101#01 control", CREATED, "240101#01")
                     page = st.alloc(HObj("obj", cls="zorg.domain.models._page.Page", fields=dict(notes=st.alloc(HObj("list", items=[note, ctrl])), events=st.alloc(HObj("list")), path=Opaque("path:PAGE"))))
@@ -541,7 +547,7 @@ def stamp_table(run: Run, model: PyModel, rid: str) -> None:
                     except Exception as e:
                         run.undecided(rid, "_check_for_modified_notes", f"cannot evaluate abstractly: {type(e).__name__}: {e}")
                         return
-                    want = has_old and changed and not dated
+                    want = has_old and (changed or stamped_before == "index only") and not dated  # an index-only stamp makes the compiled note differ from the indexed one
                     for v, s in res:
                         n += 1
                         if isinstance(v, Raised) or s.imprecise:
@@ -563,13 +569,14 @@ def stamp_table(run: Run, model: PyModel, rid: str) -> None:
                                   f"{label}: {len(evs)} events", f"with {label}, {len(evs)} events are queued (expected {1 if want else 0}): the file is not updated to match the index, or rewritten needlessly",
                                   file=FILE_H, node=fq.node)
                         if want and stamped:
-                            exp_rest = rest.replace("text", "edited")
+                            exp_rest = rest.replace("text", "edited") if changed else rest
                             got = f["body"]
                             ok = isinstance(got, SeqStr) and tuple(got.parts[:6]) == D6 and "".join(p if isinstance(p, str) else "?" for p in got.parts[6:]) == " " + exp_rest
-                            run.check("C11.R6", f"the re-stamped body is the new date, one blank, and the note's text with its old stamp removed [{'stamped before' if stamped_before else 'first stamp'}]", ok,
+                            run.check("C11.R6", f"the re-stamped body is the new date, one blank, and the note's text with its old stamp removed [{'stamped before' if stamped_before is True else 'stamped in the index only (interrupted write-back)' if stamped_before else 'first stamp'}]", ok,
                                       "_check_for_modified_notes", f"stamped_before={stamped_before}: body {got!r}"[:200],
                                       f"the stamped body becomes {got!r}; expected YYMMDD + ' ' + {exp_rest!r}: the indexed body no longer equals the file (runs of blanks / line breaks collapse, "
-                                      "or a word that is not the old stamp is dropped), so the note is stamped again whenever anything else on the page changes", file=FILE_H, node=fq.node)
+                                      "or a word that is not the old stamp is dropped -- e.g. the ZID, when the index holds a stamp the file never received), so the note is stamped again whenever "
+                                      "anything else on the page changes", file=FILE_H, node=fq.node)
                             if evs:
                                 ev = s.obj(evs[0]) if isinstance(evs[0], Ref) else None
                                 notes_f = [x for x in (ev.fields.values() if ev else []) if isinstance(x, Ref) and s.obj(x).kind == "list"]
